@@ -88,12 +88,13 @@ fn delete_wrapper_2x3() {
 
 /// C13.wrap: `ska weed` without a weed file, --min-freq 0, no site filter and no masks applies no filter
 /// at all and saves the table unchanged (the frequency threshold is floor(samples x min_freq))
-fn weed_wrapper<const FREQ10: usize>() {
+fn weed_wrapper<const R: usize, const FREQ10: usize>() {
     const C: usize = 3;
-    let mut rows = [[0u8; C]; 2];
+    let mut rows = [[0u8; C]; R];
     let mut i = 0;
-    while i < 2 { let mut j = 0; while j < C { rows[i][j] = any_stored_sym(); j += 1; } kani::assume(present::<C>(&rows[i]) >= 1); i += 1; }
-    let mut a = mk_array::<2, C>(&[10u64, 20u64], &rows);
+    while i < R { let mut j = 0; while j < C { rows[i][j] = any_stored_sym(); j += 1; } kani::assume(present::<C>(&rows[i]) >= 1); i += 1; }
+    let kmers: [u64; R] = std::array::from_fn(|i| 10 * (i as u64 + 1));
+    let mut a = mk_array::<R, C>(&kmers, &rows);
     stub_io(true);
     let min_freq = FREQ10 as f64 / 10.0;
     weed(&mut a, &None, false, min_freq, false, &FilterType::NoFilter, false, false, "out.skf");
@@ -101,21 +102,21 @@ fn weed_wrapper<const FREQ10: usize>() {
     let thr = (C * FREQ10) / 10; // floor(samples x min_freq)
     let mut out = 0;
     let mut i = 0;
-    while i < 2 {
+    while i < R {
         if present::<C>(&rows[i]) >= thr {
-            assert!(out < nrows_of(&a) && row_of::<C>(&a, out) == rows[i] && kmer_at(&a, out) == [10u64, 20u64][i] && count_at(&a, out) == present::<C>(&rows[i]), "k-mer at or above the threshold kept with all its bases");
+            assert!(out < nrows_of(&a) && row_of::<C>(&a, out) == rows[i] && kmer_at(&a, out) == kmers[i] && count_at(&a, out) == present::<C>(&rows[i]), "k-mer at or above the threshold kept with all its bases");
             out += 1;
         }
         i += 1;
     }
     assert!(nrows_of(&a) == out && nkmers_of(&a) == out && counts_len(&a) == out, "nothing else is kept");
-    if FREQ10 == 0 { assert!(out == 2, "--min-freq 0 applies no frequency filter"); kani::cover!(true, "any: saved unchanged"); }
-    else { kani::cover!(out == 1, "any: the default --min-freq 0.9 additionally drops a k-mer missing from a sample"); }
+    if FREQ10 == 0 { assert!(out == R, "--min-freq 0 applies no frequency filter"); kani::cover!(true, "any: saved unchanged"); }
+    else { kani::cover!(out + 1 == R, "any: the default --min-freq 0.9 additionally drops a k-mer missing from a sample"); }
     std::mem::forget(a);
 }
 #[kani::proof]
 #[kani::unwind(8)]
-fn weed_wrapper_minfreq0() { weed_wrapper::<0>(); }
+fn weed_wrapper_minfreq0() { weed_wrapper::<2, 0>(); }
 #[kani::proof]
-#[kani::unwind(8)]
-fn weed_wrapper_minfreq09() { weed_wrapper::<9>(); }
+#[kani::unwind(5)]
+fn weed_wrapper_minfreq09() { weed_wrapper::<1, 9>(); }
